@@ -149,6 +149,12 @@ fn short_file(loc: &str) -> String {
     file.to_string()
 }
 
+/// First words of a panic message, digits removed: stable across line shifts, distinguishes causes.
+fn slug(msg: &str) -> String {
+    let cleaned: String = msg.chars().map(|c| if c.is_ascii_alphabetic() { c.to_ascii_lowercase() } else { ' ' }).collect();
+    cleaned.split_whitespace().take(4).collect::<Vec<_>>().join("-")
+}
+
 pub struct Outcome {
     pub violation: Option<Violation>,
     pub obs: Obs,
@@ -168,7 +174,7 @@ fn execute_here<S: Scenario>(case: &S::Case) -> Outcome {
             let label = probe::current_label();
             let pre = if obs.prestate.is_empty() { "-".to_string() } else { obs.prestate.clone() };
             Some(Violation {
-                signature: format!("{}/panic/{}/{}@{}", S::ID, label, pre, short_file(&loc)),
+                signature: format!("{}/panic/{}/{}@{}#{}", S::ID, label, pre, short_file(&loc), slug(&msg)),
                 detail: format!("panic at {loc}: {msg}"),
             })
         }
